@@ -193,6 +193,24 @@ def run(rep, prop=PROP):
                         'attribution: every open/close not announced by the harness on the marker descriptor is netpoll\'s']
     report(rep, problems, proof_broken, final)
 
+def site_diff():
+    """extracted close sites vs the sites of the model (parsed from Site.descr), for the report when the tie lemma breaks"""
+    import re
+    src = open(os.path.join(common.LEAN, 'Netpoll', 'Fd.lean')).read()
+    model = []
+    for m in re.finditer(r'\|\s*\.(\w+)\s*=>\s*\("([^"]*)",\s*"([^"]*)",\s*"([^"]*)",\s*"([^"]*)"\)', src):
+        if m.group(1) != 'listener_Close_rawfd':
+            model.append(m.groups()[1:])
+    try:
+        ext = [tuple(x[k] for k in ('file', 'func', 'kind', 'call')) for x in common.facts().get('closeSites', [])]
+    except Exception:
+        return ''
+    new = [e for e in ext if ext.count(e) > model.count(e)]
+    gone = [e for e in model if model.count(e) > ext.count(e)]
+    if not new and not gone:
+        return ''
+    return ' | close sites in /repo unknown to the model: %s; sites of the model missing in /repo: %s' % (sorted(set(new)), sorted(set(gone)))
+
 def site_table():
     """names of the model's sites, from the Lean source (the tie lemma is what checks them against /repo)"""
     import re
@@ -216,8 +234,10 @@ def report(rep, problems, proof_broken, final):
         rep.violation('correspondence Netpoll.Fd <-> /repo no longer checks and no run violating the specification was found in %d runs: %s (%d such)'
                       % (rep.cov['evaluations'], text, len(conf)), lines, no_input=True)
     elif proof_broken:
-        rep.violation('proof obligation / tie broken and no failing run found in %d scenario runs: %s' % (rep.cov['evaluations'], proof_broken),
-                      ['# ' + l for l in proof_broken.split('\n')], no_input=True)
+        extra = site_diff()
+        rep.violation('proof obligation / tie lemma (Netpoll.Tie.Fd.closeSites_eq_covered) broken and no failing run found in %d scenario runs: %s%s'
+                      % (rep.cov['evaluations'], proof_broken, extra),
+                      ['# ' + l for l in (proof_broken + extra).split('\n')], no_input=True)
     elif harness:
         kind, text, lines = harness[0]
         rep.violation('audit scenario cannot do its job on this tree (twice): %s (%d such)' % (text, len(harness)), lines, no_input=True, tag='harness-')
